@@ -1323,7 +1323,122 @@ func (g *vdb) singletonJoin() *vnode {
 // column, the value taken from the first source's data, so that some rows of the first source
 // agree with it and others contradict it (selections against fixed values, with or without an
 // index on the join columns: temp index)
+// fixedRightPlan searches the data for (x, y, c, d, v): y restricted to c = v, joined with x on
+// (c, d), such that some row of x contradicts c = v and another agrees and has a partner in y
+func (g *vdb) fixedRightPlan() (x, y *vtable, c, d string, v Value, ok bool) {
+	for _, xi := range g.r.Perm(len(g.tables)) {
+		for _, yi := range g.r.Perm(len(g.tables)) {
+			x, y := g.tables[xi], g.tables[yi]
+			if x == y || len(x.rows) < 2 || len(y.rows) == 0 {
+				continue
+			}
+			var common []string
+			for _, col := range x.cols {
+				if y.colIndex(col.name) >= 0 {
+					common = append(common, col.name)
+				}
+			}
+			// d: preferably a column that leads a key/index of y (the join then reads y through it)
+			var dlist []string
+			for pass := 0; pass < 2; pass++ {
+				for _, di := range g.r.Perm(len(common)) {
+					leads := false
+					for _, ix := range append(append([][]string{}, y.keys...), y.indexes...) {
+						if len(ix) > 0 && ix[0] == common[di] {
+							leads = true
+						}
+					}
+					if leads == (pass == 0) {
+						dlist = append(dlist, common[di])
+					}
+				}
+			}
+			// c: preferably not in the index that d leads (the restriction on c is then a plain
+			// filter, the selections of the join go to the source's index)
+			type cd struct{ c, d string }
+			var first, rest []cd
+			for _, ci := range g.r.Perm(len(common)) {
+				for _, d := range dlist {
+					c := common[ci]
+					if c == d {
+						continue
+					}
+					pref := false
+					for _, ix := range append(append([][]string{}, y.keys...), y.indexes...) {
+						if len(ix) > 0 && ix[0] == d && !vhasStr(ix, c) {
+							pref = true
+						}
+					}
+					if pref {
+						first = append(first, cd{c, d})
+					} else {
+						rest = append(rest, cd{c, d})
+					}
+				}
+			}
+			for _, p := range append(first, rest...) {
+				{
+					c, d := p.c, p.d
+					for _, yr := range y.rows {
+						v := yr[y.colIndex(c)]
+						agree, contra := false, false
+						for _, xr := range x.rows {
+							if !xr[x.colIndex(c)].Equal(v) {
+								contra = true
+							} else if xr[x.colIndex(d)].Equal(yr[y.colIndex(d)]) {
+								agree = true
+							}
+						}
+						if agree && contra {
+							return x, y, c, d, v, true
+						}
+					}
+				}
+			}
+		}
+	}
+	return nil, nil, "", "", nil, false
+}
+
 func (g *vdb) fixedRightJoin() *vnode {
+	if px, py, pc, pd, pv, ok := g.fixedRightPlan(); ok && g.r.Intn(3) != 0 {
+		a := &vnode{op: "table", tbl: px, cols: append([]vcol{}, px.cols...)}
+		yb := &vnode{op: "table", tbl: py, cols: append([]vcol{}, py.cols...)}
+		var b *vnode = &vnode{op: "where", kids: []*vnode{yb}, cols: yb.cols,
+			expr: &vexpr{op: "is", kids: []*vexpr{vcolx(pc), vconst(pv)}}}
+		// the other common columns are removed from one side: mostly from the first source, so
+		// that the restricted source is read directly by the join (Select / Lookup on the Where)
+		var drop []string
+		for _, cc := range py.cols {
+			if _, in := a.find(cc.name); in && cc.name != pc && cc.name != pd {
+				drop = append(drop, cc.name)
+			}
+		}
+		if len(drop) > 0 {
+			side := b
+			if g.r.Intn(4) != 0 && len(drop) < len(a.cols) {
+				side = a
+			}
+			p := &vnode{op: "remove", kids: []*vnode{side}, list: drop}
+			for _, cc := range side.cols {
+				if !vhasStr(drop, cc.name) {
+					p.cols = append(p.cols, cc)
+				}
+			}
+			if side == a {
+				a = p
+			} else {
+				b = p
+			}
+		}
+		kind := []string{"leftjoin", "leftjoin", "leftjoin", "leftjoin", "leftjoin", "join"}[g.r.Intn(6)]
+		if g.valid(b) && g.valid(a) {
+			if j := g.binary(a, b, kind); j != nil && g.valid(j) {
+				g.note("fixed-right-planned-" + kind)
+				return j
+			}
+		}
+	}
 	for range 6 {
 		x, y := g.tables[g.r.Intn(len(g.tables))], g.tables[g.r.Intn(len(g.tables))]
 		if x == y || len(x.rows) < 2 || len(y.rows) == 0 {
@@ -1354,10 +1469,24 @@ func (g *vdb) fixedRightJoin() *vnode {
 			continue
 		}
 		// often join on few columns: drop the other common columns from the second source
-		if g.r.Intn(2) == 0 {
+		if g.r.Intn(4) != 0 {
 			var drop []string
+			// join on the restricted column alone, on it and one more column (preferably one the
+			// second source has an index on), or on a random subset
+			mode := g.r.Intn(3)
+			keep := ""
+			if mode == 1 {
+				for _, ix := range y.indexes {
+					if ix[0] != c && vhasStr(common, ix[0]) {
+						keep = ix[0]
+					}
+				}
+				if keep == "" || g.r.Intn(3) == 0 {
+					keep = common[g.r.Intn(len(common))]
+				}
+			}
 			for _, cc := range common {
-				if cc != c && g.r.Intn(3) != 0 {
+				if cc != c && cc != keep && (mode < 2 || g.r.Intn(2) == 0) {
 					drop = append(drop, cc)
 				}
 			}
@@ -1725,6 +1854,7 @@ func verrClass(msg string) string {
 var vstrategies = []vstrategy{
 	{name: "none"},
 	{name: "none-prev", prev: true},
+	{name: "notemp", noTemp: true},
 	{name: "random", random: true},
 	{name: "random-prev-notemp", random: true, prev: true, noTemp: true},
 	{name: "order1", order: 1, noRev: true},
